@@ -791,6 +791,9 @@ def run(model, rep):
     # fields cut at the wrong character let an altered setting through (django_des_crypt's duplicated salt, fixed-offset parsers)
     _t = HandlerTable(model)
     _c07.rule_h(model, _Renamed(rep, {"C07.h": "C08.k-slice-offsets"}, "C08.x-"), _t, _c07._handler_pairs(model, _t))
+    # a read-only has_backend() query must not switch the implementation that later validates untrusted cost parameters (rule shared with C03)
+    from . import c03 as _c03
+    _c03.rule_g(model, _Renamed(rep, {"C03.g-dryrun-forwarded": "C08.n-dryrun-forwarded", "C03.g-backend-state-owner": "C08.n-backend-state"}, "C08.x-"))
     _c07.rule_b(model, _Renamed(rep, {"C07.b": "C08.l-settings-rendered"}, "C08.x-"), _c07._handler_pairs(model, _t), _c07._libpass_pairs(model))
     from . import shared
     shared.falsy_zero_lint(model, rep, "C08.e-zero-is-a-value", lambda un: un.startswith(("passlib.handlers", "passlib.utils.handlers")),
